@@ -207,6 +207,29 @@ func (in *Interp) store(p *value, v value) {
 	*p = v
 }
 
+// storeDeep stores an aggregate element by element into the aggregate already in the cell, so that pointers to
+// its fields/elements taken earlier stay valid (go/ssa computes the field addresses of `*p = T{...}` before it
+// stores the zero value into *p).
+func (in *Interp) storeDeep(p *value, v value) {
+	switch nv := v.(type) {
+	case structV:
+		if old, ok := (*p).(structV); ok && len(old) == len(nv) {
+			for i := range nv {
+				in.storeDeep(&old[i], nv[i])
+			}
+			return
+		}
+	case arrayV:
+		if old, ok := (*p).(arrayV); ok && len(old) == len(nv) {
+			for i := range nv {
+				in.storeDeep(&old[i], nv[i])
+			}
+			return
+		}
+	}
+	in.store(p, v)
+}
+
 func (in *Interp) undoAll() {
 	for i := len(in.journal) - 1; i >= 0; i-- {
 		e := in.journal[i]
@@ -225,7 +248,7 @@ func (in *Interp) storeVal(p value, v value) {
 		if p == nil {
 			in.targetPanicStr("runtime error: invalid memory address or nil pointer dereference")
 		}
-		in.store(p, copyVal(v))
+		in.storeDeep(p, copyVal(v))
 	case *symPtr:
 		ts := in.ts
 		nv := in.toTerm(v, p.w)
@@ -313,6 +336,93 @@ func (in *Interp) ensureInit(pkg *ssa.Package) {
 		in.inInit = saveInit
 		in.steps, in.maxSteps = saveSteps, saveMax
 	}
+}
+
+// switchChain recognises the blocks go/ssa emits for `case v1, v2, ..., vn:` - a run of blocks that each hold only
+// one comparison and an If, all branching to the same target T when true - and returns the disjunction of their
+// conditions together with the last block of the run (nil if there is no run of at least two).
+func (in *Interp) switchChain(fr *frame, first *ssa.If, c *Term) (*Term, *ssa.BasicBlock) {
+	if in.noFork > 0 {
+		return nil, nil
+	}
+	b := first.Block()
+	target := b.Succs[0]
+	chain := []*ssa.BasicBlock{b}
+	or := c
+	next := b.Succs[1]
+	for len(chain) < 64 {
+		if len(next.Instrs) != 2 || len(next.Preds) != 1 || next.Succs == nil || len(next.Succs) != 2 || next.Succs[0] != target {
+			break
+		}
+		bo, ok1 := next.Instrs[0].(*ssa.BinOp)
+		iff, ok2 := next.Instrs[1].(*ssa.If)
+		if !ok1 || !ok2 || iff.Cond != ssa.Value(bo) || bo.Referrers() == nil || len(*bo.Referrers()) != 1 {
+			break
+		}
+		if _, isParamOrReg := fr.fi.idx[bo.X]; !isParamOrReg {
+			if _, isConst := bo.X.(*ssa.Const); !isConst {
+				break
+			}
+		}
+		if _, isParamOrReg := fr.fi.idx[bo.Y]; !isParamOrReg {
+			if _, isConst := bo.Y.(*ssa.Const); !isConst {
+				break
+			}
+		}
+		if bo.X.Parent() != nil && !dominatesOrSame(bo.X, b) || bo.Y.Parent() != nil && !dominatesOrSame(bo.Y, b) {
+			break
+		}
+		v := in.binop(bo.Op, bo.X.Type(), bo.Y.Type(), fr.get(bo.X), fr.get(bo.Y))
+		var t *Term
+		switch v := v.(type) {
+		case bool:
+			t = in.ts.Bool(v)
+		case *Term:
+			if v.w != 0 {
+				return nil, nil
+			}
+			t = v
+		default:
+			return nil, nil
+		}
+		or = in.ts.Or(or, t)
+		chain = append(chain, next)
+		in.steps += 2
+		next = next.Succs[1]
+	}
+	if len(chain) < 2 {
+		return nil, nil
+	}
+	// phis of the target must not distinguish the blocks of the run
+	for _, ins := range target.Instrs {
+		phi, ok := ins.(*ssa.Phi)
+		if !ok {
+			break
+		}
+		var common ssa.Value
+		for i, pred := range target.Preds {
+			for _, cb := range chain {
+				if pred == cb {
+					if common == nil {
+						common = phi.Edges[i]
+					} else if common != phi.Edges[i] {
+						return nil, nil
+					}
+				}
+			}
+		}
+	}
+	return or, chain[len(chain)-1]
+}
+
+// dominatesOrSame: the value is defined in a block that dominates b (so it has been computed when b runs).
+func dominatesOrSame(v ssa.Value, b *ssa.BasicBlock) bool {
+	ins, ok := v.(ssa.Instruction)
+	if !ok {
+		return true // parameters, free variables
+	}
+	d := ins.Block()
+	return d == b || d.Dominates(b)
 }
 
 func (in *Interp) constValue(c *ssa.Const) value {
@@ -437,6 +547,15 @@ func (in *Interp) visitInstr(fr *frame, instr ssa.Instruction) continuation {
 				succ = 0
 			}
 		case *Term:
+			if oc, last := in.switchChain(fr, instr, c); last != nil {
+				// a run of `case v1, v2, ...:` tests with one common target: decide their disjunction once
+				if in.decide(oc, "switch-cases") {
+					fr.prevBlock, fr.block = fr.block, fr.block.Succs[0]
+				} else {
+					fr.prevBlock, fr.block = last, last.Succs[1]
+				}
+				return kJump
+			}
 			switch in.tryMergeIf(fr, instr, c) {
 			case 1:
 				return kJump
